@@ -18,9 +18,13 @@ RULE = ('all 2x2 tables with every cell >= 1 and n <= N (N = 9 quick / 12 thorou
 TRUSTED = ['pandas boolean masks / dropna used by RiskDifference.fit (modelled by Model.RdBounds.of_rows)']
 
 
-def make_frame(rows, rng, index_kind):
+def make_frame(rows, rng, index_kind, store=None):
     df = pd.DataFrame({'e': [np.nan if r[0] is None else float(r[0]) for r in rows],
                        'y': [np.nan if r[1] is None else float(r[1]) for r in rows]})
+    # compact storage of the 0/1 codes where the column has no missing value (a cell count may exceed the type's range)
+    for col, j in (('e', 0), ('y', 1)):
+        if store and store.get(col) and not any(r[j] is None for r in rows):
+            df[col] = df[col].astype(store[col])
     # a bystander column the analysis does not name, with missing values of its own (most real frames have some)
     df['cd4'] = [np.nan if (i * 7 + len(rows)) % 3 == 0 else 100.0 + i for i in range(len(rows))]
     if index_kind == 'shift':
@@ -35,9 +39,9 @@ def make_frame(rows, rng, index_kind):
 SHOWN = [0]
 
 
-def run_impl(rows, reference, index_kind='range', rng=None, show=None):
+def run_impl(rows, reference, index_kind='range', rng=None, show=None, store=None):
     from zepid import RiskDifference
-    df = make_frame(rows, rng, index_kind)
+    df = make_frame(rows, rng, index_kind, store)
     snap = df.copy(deep=True)
     rd = RiskDifference(reference=reference)
     try:
@@ -93,14 +97,23 @@ def gen_cases(ctx):
             rows += [(None, None)] * r.randint(0, 3)
         r.shuffle(rows)
         cases.append({'rows': rows, 'reference': r.choice([0, 0, 1]), 'index': r.choice(['range', 'shift', 'str', 'dup']),
-                      'kind': 'random', 'miss': miss})
+                      'kind': 'random', 'miss': miss,
+                      'store': {'e': r.choice([None, 'int8', 'uint8', 'bool', 'int64']), 'y': r.choice([None, 'int8', 'uint8', 'bool', 'int64'])}})
+    # tables whose cell counts exceed 127 / 255, stored in every integer width
+    for k in range(6 if ctx.quick else 40):
+        r = ctx.rng
+        a, b, c, d = [r.randint(130, 700) for _ in range(4)]
+        rows = [(1, 1)] * a + [(1, 0)] * b + [(0, 1)] * c + [(0, 0)] * d
+        r.shuffle(rows)
+        st = [('int8', 'int8'), ('uint8', 'uint8'), ('int16', 'int8'), ('int8', None), (None, 'uint8'), ('bool', 'bool')][k % 6]
+        cases.append({'rows': rows, 'reference': r.choice([0, 1]), 'index': 'range', 'kind': 'large-compact', 'store': {'e': st[0], 'y': st[1]}})
     return cases
 
 
 def check_cases(ctx, cases):
     impl = []
     for cs in cases:
-        impl.append(run_impl(cs['rows'], cs['reference'], cs['index'], show=cs.get('show')))
+        impl.append(run_impl(cs['rows'], cs['reference'], cs['index'], show=cs.get('show'), store=cs.get('store')))
         cs['show'] = impl[-1].get('show', 0)
     side = None
     if ctx.gen.get('rdbounds', {}).get('ok'):
